@@ -4,29 +4,10 @@ import os, json, sys
 VERIF = os.path.dirname(os.path.dirname(os.path.abspath(__file__)))
 sys.path.insert(0, VERIF)
 
-# id -> (category, technique, level text, level note, DESIGN section)
-T = {}
-def P(pid, cat, technique, text, note):
-  T[pid] = (cat, technique, text, note)
-
-HIST = ('the real engine process is driven through its marshal pipe by seeded random histories; the oracle observes every '
-        'call/reply and snapshots')
-
-P('C01', 'exploration', 'runtime monitoring: undo history checker (snapshot before == snapshot after ApplyUndoActions) over random histories',
-  'Held on every bundle of the explored histories: after ApplyUndoActions of the returned undo list every table (data, formula, metadata) equals the pre-bundle snapshot, and unwinding each history in reverse returns to the post-InitNewDoc state. Not a proof: reach is bounded by the generator vocabulary reported in the evidence.',
-  'Trusts the harness snapshot/differ (encoded values compared under Node number semantics) and that volatile formulas are never generated.')
-P('C02', 'exploration', 'runtime monitoring: reference-model comparator (independent doc-action interpreter fed only the stored actions)',
-  'Held on the explored histories: an independent 150-line interpreter replaying all stored actions since InitNewDoc equals the engine snapshot after every bundle (both directions: no silent change, no phantom action).',
-  'Trusts the interpreter and the Node-side type defaults it uses for omitted cells; failed bundles that leave a trace are attributed to C04.')
-P('C03', 'exploration', 'runtime monitoring: undo+redo history checker (ApplyDocActions of stored actions after undo)',
-  'Held on every successful bundle explored: undo followed by ApplyDocActions(stored) reproduces the post-bundle snapshot.',
-  'Same trusted base as C01.')
-P('C04', 'fault_enumeration', 'runtime monitoring with fault injection: one-shot failpoints enumerated over the call boundaries each bundle crosses + naturally failing bundles; no-trace oracle',
-  'For every explored bundle every failpoint position of bundles with up to 12 positions, and a seeded stride through the positions of longer ones, was fired once (both tiers; thorough = four seed families of the quick workload); after each failure the snapshot equals the pre-state, internal schema equals metadata and Calculate emits nothing.',
-  'Failpoints are at entry/exit of functions that can raise in the real program, never inside the engine\'s recovery code; faults swallowed by formula evaluation are not judged.')
-P('C08', 'exploration', 'runtime monitoring: invariant hook at quiescent points (internal schema vs schema rebuilt from metadata snapshot)',
-  'Held after every bundle (successful or failed) of schema-heavy histories: Engine.schema, live column objects and generated classes equal a schema rebuilt independently from the metadata rows; no stray column records.',
-  'Trusts the worker export that reads Engine.schema / Table.all_columns / usercode.')
+# id -> {category, technique, text, note}: tools/manifest_entries.json. A property is claimed iff it has an entry
+# there, props/<ID>.py exists and tools/not_applicable.json does not list it.
+T = {k: (v['category'], v['technique'], v['text'], v['note'])
+     for k, v in json.load(open(os.path.join(VERIF, 'tools', 'manifest_entries.json'))).items()}
 
 def main():
   checks = []
@@ -36,7 +17,7 @@ def main():
   na_reasons = json.load(open(os.path.join(VERIF, 'tools', 'not_applicable.json'))) if os.path.exists(os.path.join(VERIF, 'tools', 'not_applicable.json')) else {}
   for p in props:
     pid = p['id']
-    if pid in have and pid in T:
+    if pid in have and pid in T and pid not in na_reasons:
       cat, tech, text, note = T[pid]
       checks.append({
         'property_id': pid,
